@@ -282,17 +282,20 @@ where
         loop {
             if available_in == 0 && !eof {
                 next_in_offset = 0;
-                match r.read(input_buffer) {
-                    Err(e) => {
-                        read_err = Err(e);
-                        available_in = 0;
-                        eof = true;
-                    }
-                    Ok(size) => {
-                        if size == 0 {
+                // fill the buffer completely (or up to EOF / the first error): the chunks offered
+                // to the encoder then do not depend on the sizes of the individual reads
+                while available_in < input_buffer.len() && !eof {
+                    match r.read(&mut input_buffer[available_in..]) {
+                        Err(e) => {
+                            read_err = Err(e);
                             eof = true;
                         }
-                        available_in = size;
+                        Ok(size) => {
+                            if size == 0 {
+                                eof = true;
+                            }
+                            available_in += size;
+                        }
                     }
                 }
             }
